@@ -1020,6 +1020,14 @@ class CSym(object):
                     "==": tm.mk_eq(ta, tb), "!=": tm.mk_not(tm.mk_eq(ta, tb))}[op]
         if op in ("<<", ">>", "&", "|", "^") and isinstance(a, int) and isinstance(b, int):
             return {"<<": a << b, ">>": a >> b, "&": a & b, "|": a | b, "^": a ^ b}[op]
+        if op == "&" and isinstance(b, int) and not isinstance(a, int):
+            # masks of the forms 2^k - 1 and ~(2^k - 1) on a non-negative int: remainder / rounding down to a multiple of 2^k
+            if b >= 0 and (b & (b + 1)) == 0:
+                return tm.mk_fn("imod", tm.lift(a), tm.const(b + 1))
+            if b < 0 and ((-b) & (-b - 1)) == 0:
+                return tm.lift(a) - tm.mk_fn("imod", tm.lift(a), tm.const(-b))
+        if op in ("<<", ">>") and isinstance(b, int) and b >= 0 and not isinstance(a, int):
+            return tm.lift(a) * (2 ** b) if op == "<<" else tm.mk_fn("idiv", tm.lift(a), tm.const(2 ** b))
         raise CUnsupported("binary operator %s on symbolic values" % op)
 
     # ------------------------------------------------------------------ lvalues, loads, stores
